@@ -474,6 +474,11 @@ class Ctx:
         self.known_lines.append(text)
 
 
+def finding_listed(ctx, fid):
+    """is the finding [fid] listed (as known:) for this property in KNOWN_FINDINGS.txt?"""
+    return any(k["fields"].get("id") == fid for k in ctx.known)
+
+
 class ModelUnavailable(Exception):
     pass
 
